@@ -128,6 +128,7 @@ pub fn outcome_json(spec: &Spec, out: &Outcome, with_obs: bool, with_orders: boo
         "nontrivial": nontrivial,
         "fired": fired,
         "inert": inert,
+        "mirror_mismatches": out.mirror_mismatches,
         "clock_reads": clock_reads,
         "pid_reads": pid_reads,
         "event": format!("{event:016x}"),
